@@ -72,6 +72,19 @@ def rewire(rng, s, k):
         elif r < 0.88 and s["groups"]:
             g = rng.choice(s["groups"])
             ch = rng.random()
+            nested = [h for h in s["groups"] if h["ctx"] is not None and h["ctx"][0] == "group"]
+            if ch < 0.15 and nested:
+                # a second thread group with the id of an enclosing one, nested inside one of its own descendants:
+                # every scope still resolves (first match on the duplicated id), but containment is cyclic
+                h = rng.choice(nested)
+                parent = next((x for x in s["groups"] if x["id"] == h["ctx"][1]), None)
+                if parent is not None:
+                    dup = copy.deepcopy(parent)
+                    dup["ctx"] = ("group", h["id"])
+                    dup["name"] = 690 + rng.randrange(9)
+                    s["groups"].append(dup)
+                    log.append("duplicate thread group id nested in its own descendant")
+                continue
             if ch < 0.4:
                 g["ctx"] = rng.choice([None, any_ref(rng, s, ["group"]), ("group", g["id"])])
             elif ch < 0.7:
